@@ -31,9 +31,10 @@ class Context:
 
 # ------------------------------------------------------------------------------------------------
 class Spec:
-    def __init__(self, module, groups, run, level="proof", partial=None, explanation=None):
+    def __init__(self, module, groups, run, level="proof", partial=None, explanation=None, extra=()):
         self.module, self.groups, self.run, self.level, self.partial = module, groups, run, level, partial
         self.explanation = explanation
+        self.extra = extra      # further theorem modules; only their `<prop>_...` theorems belong to this property
 
 
 def container_run(engines):
@@ -416,10 +417,10 @@ REGISTRY = {
     "C14": Spec("FFSM2.Props.C14", ["halving", "find", "ids"], c14_run),
     "C15": Spec("FFSM2.Props.C15", [], c15_run),
     "C20": Spec("FFSM2.Props.C20", ["contain", "buffers"], container_run(["bitarray", "static", "dynamic"])),
-    "C10": Spec("FFSM2.Props.C10", ["config", "ids"], c10_run),
+    "C10": Spec("FFSM2.Props.C10", ["config", "ids"], c10_run, extra=("FFSM2.Props.History",)),
     "C18": Spec("FFSM2.Props.C18", [], c18_run, level="other", explanation="Partial by nature: a theorem about a model cannot exhibit heap allocation or undefined behaviour of compiled C++. Executed here: both correspondence harnesses rebuilt with ASan+UBSan (-fno-sanitize-recover=all) and run on generated in-contract histories (payloads of alignment 1/8/16, plans at full capacity, n=1..7 quick / up to 64 thorough); an allocation probe that wraps malloc/calloc/realloc/free and operator new/delete around a scenario touching the whole API; thorough: nm -u symbol scan. The model-side index/range/alignment theorems are listed in DESIGN.md §9 C18."),
     "C19": Spec("FFSM2.Props.C19", [], c19_run, level="other", explanation="Partial by nature: 'compiles under every switch/standard/compiler' and 'the shipped header equals the amalgamation' are facts about files and compilers. Executed here: -fsyntax-only of an API-instantiating TU under all 256 switch combinations + FFSM2_ENABLE_ALL (quick: g++ C++11 and clang++ C++20; thorough: 2 compilers x 4 standards); tools/join.py re-run on a scratch copy and byte-compared; a feature-free scenario run under 8 (thorough 16) feature subsets + STRUCTURE_REPORT/DEBUG_STATE_TYPE/DISABLE_TYPEINDEX whose projected traces must be identical and equal to the model's."),
-    "C01": Spec("FFSM2.Props.C01", ["ids"], machine_run("C01")),
+    "C01": Spec("FFSM2.Props.C01", ["ids"], machine_run("C01"), extra=("FFSM2.Props.History",)),
     "C02": Spec("FFSM2.Props.C02", ["ids", "config"], machine_run("C02", ("random", "pingpong"))),
     "C03": Spec("FFSM2.Props.C03", ["ids", "config"], machine_run("C03", ("random", "pingpong"))),
     "C04": Spec("FFSM2.Props.C04", ["config"], machine_run("C04", ("random", "pingpong"))),
@@ -431,7 +432,7 @@ REGISTRY = {
     "C11": Spec("FFSM2.Props.C11", ["ids"], machine_run("C11", ("random", "replica"))),
     "C12": Spec("FFSM2.Props.C12", ["ids", "serial", "bitwidth", "contain", "typebits", "buffers"], c12_run),
     "C16": Spec("FFSM2.Props.C16", ["ids"], machine_run("C16")),
-    "C17": Spec("FFSM2.Props.C17", ["ids"], machine_run("C17", ("random", "reactivate"))),
+    "C17": Spec("FFSM2.Props.C17", ["ids"], machine_run("C17", ("random", "reactivate")), extra=("FFSM2.Props.History",)),
 }
 
 
@@ -519,6 +520,16 @@ def run_property(ctx):
         proof = C.check_proofs(ctx.prop, spec.module, ctx.tier)
         for b in proof["broken"]:
             ctx.broken.append({"obligation": "theorem %s in %s" % (b, spec.module), "why": proof.get("build_log", "")[-1200:]})
+        for em in spec.extra:
+            p2 = C.check_proofs(ctx.prop, em, ctx.tier, only_prefix=ctx.prop + "_")
+            for b in p2["broken"]:
+                ctx.broken.append({"obligation": "theorem %s in %s" % (b, em), "why": p2.get("build_log", "")[-1200:]})
+            proof["theorems"] = proof["theorems"] + p2["theorems"]
+            proof["obligations"] += p2["obligations"]
+            proof["discharged"] += p2["discharged"]
+            proof["axioms"].update(p2["axioms"])
+            proof["broken"] = proof["broken"] + p2["broken"]
+            proof["module"] = proof.get("module", spec.module) + " + " + em
     # 3-4. harness + correspondence (+ property oracles on the implementation)
     if ok:
         try:
